@@ -571,8 +571,17 @@ var c17Hostile = []string{"SELECT * FROM t /* c */ WHERE a = $$", "-- $$", "/* *
 // fragments that open something a scanner has to close (comments, string and identifier quotes, $$ strings)
 var c17Fragments = []string{"/*", "*/", "--", "//", "$$", "$", "'", "''", "\"", "\n", "\r", " ", ";", "SELECT", "* FROM system.local", "FROM t", "WHERE a =", "x", "é", "\x00", "(", "{", "["}
 
+// select clauses the proxy has to evaluate itself when the table is one of its own
+var c17Selectors = []string{"count()", "count(", "count(1, 2)", "count(1)", "count(key", "count ( )", "COUNT()", "now(x)", "now(", "", ",", ", ,", "key AS", "key AS AS", "a.b.c", "count(*) AS", "writetime()", "*, ", "(", ")", "key,", "count(*), count()", "JSON", "DISTINCT", "key AS \"\"", "\"", "token()", "ttl(", "cast(key AS", "-", "1", "'x'", "?", "system.now()"}
+
 func hostile(rt *rapid.T, label string) string {
-	if rapid.IntRange(0, 3).Draw(rt, label+"-kind") == 0 {
+	switch rapid.IntRange(0, 3).Draw(rt, label+"-kind") {
+	case 1:
+		sel := c17Selectors[rapid.IntRange(0, len(c17Selectors)-1).Draw(rt, label+"-sel")]
+		tbl := rapid.SampledFrom([]string{"system.local", "system.peers", "system.peers_v2", "system.", "local", "system.schema_keyspaces", "\"system\".\"local\""}).Draw(rt, label+"-tbl")
+		tail := rapid.SampledFrom([]string{"", "", " WHERE", " WHERE key = 'x'", " LIMIT", ";", " ALLOW"}).Draw(rt, label+"-seltail")
+		return "SELECT " + sel + " FROM " + tbl + tail
+	case 0:
 		n := rapid.IntRange(1, 8).Draw(rt, label+"-n")
 		var sb strings.Builder
 		for i := 0; i < n; i++ {
